@@ -284,13 +284,6 @@ class JoinAligned(Contract):
     def raises(self, S, case, env):
         return {ValueError: (False, case["swapped"])}
 
-    def known_regions(self, S, case, env):
-        # open finding (recorded under C06 / C07, same root): an input whose axis on an aligned dimension is EMPTY cannot be
-        # reindexed onto a non-empty common axis -- align raises IndexError
-        dims = range(case["rank"]) if case["func"] == "stack" else range(1, case["rank"])
-        n = lambda j, d: len(env["labels"][j][d])
-        return {"empty-operand-axis": any((n(0, d) == 0) != (n(1, d) == 0) for d in dims)}
-
     def post(self, S, case, env, result):
         import numpy as np
         rank, k = case["rank"], case["k"]
@@ -420,14 +413,6 @@ class JoinAlignedProof(Contract):
                     for ax in mod._get_aligned_axes(arrays, axis="x%d" % d, strict=True):
                         out[ax.name] = ax.values
         return out
-
-    def known_regions(self, S, case, env):
-        try:
-            common = self._common(S, env)
-        except Exception:
-            return {}
-        conds = [S.land(S.n(env["labels"][j][d]) == 0, S.n(common["x%d" % d]) > 0) for j in range(case["k"]) for d in range(case["rank"]) if "x%d" % d in common]
-        return {"empty-operand-axis": S.lor(*conds)} if conds else {}
 
     def post(self, S, case, env, result):
         rank, k, func = case["rank"], case["k"], case["func"]
